@@ -9,6 +9,7 @@ import OpcuaModel.Model.Validate
 import OpcuaModel.Model.Enum
 import OpcuaModel.Model.Meta
 import OpcuaModel.Model.Proto
+import OpcuaModel.Model.Effects
 /-! Line-protocol driver: one JSON object per input line → one JSON object per output line.
     It only *evaluates* the model's definitions; it contains no logic of its own beyond decoding. -/
 open Lean Opcua Opcua.IO
@@ -467,7 +468,7 @@ def opWriteDoc (j : Json) : Except String Json := do
   let lm := (getStrOpt j "last_modified").getD []
   let pd := (getStrOpt j "publication_date").getD []
   match writeDoc g uri incl with
-  | .ok d => return Json.mkObj [("doc", wdocToJson d), ("text", Json.str (ofStr (renderDoc d lm pd "<now>".toList)))]
+  | .ok d => return Json.mkObj [("doc", wdocToJson d), ("text", Json.str (ofStr (renderDoc d lm pd)))]
   | .error e => return errJson e
 
 /-! ### validation ops (C11, C16) -/
@@ -644,6 +645,47 @@ def opSched (j : Json) : Except String Json := do
 
 end ProtoIO
 
+/-! ### operation histories on a graph (C15) -/
+namespace HistIO
+open Opcua.Eff
+
+def gopOf (j : Json) : Except String GOp := do
+  let k := ofStr (← getStr j "k")
+  if k == "write" then
+    return .write (← getStr j "uri") (← getBool j "outgoing") (getStrOpt j "new_version")
+      ((getStrOpt j "last_modified").getD []) ((getStrOpt j "publication_date").getD [])
+  else if k == "lookup" then return .lookup (← getStr j "name") (getStrOpt j "cls")
+  else if k == "refs_of_type" then return .refsOfType (← getStr j "name")
+  else if k == "closure" then return .closure (← getStr j "name")
+  else if k == "circular" then return .circular (← getStr j "name")
+  else throw s!"unknown graph op {k}"
+
+def exJson {α} (f : α → Json) : Except PyErr α → Json
+  | .ok a => Json.mkObj [("ok", f a)]
+  | .error e => errJson e
+
+def goutJson : GOut → Json
+  | .text r => exJson (fun t => Json.str (ofStr t)) r
+  | .id r => exJson (fun (i : Nat) => Json.num i) r
+  | .triples r => exJson (fun l => Json.arr (l.map fun (t : Nat × Nat × Nat) => natsToJson [t.1, t.2.1, t.2.2]).toArray) r
+  | .edges r => exJson (fun l => Json.arr (l.map fun (t : Nat × Nat) => natsToJson [t.1, t.2]).toArray) r
+  | .ids r => exJson natsToJson r
+
+def opHist (j : Json) : Except String Json := do
+  let g ← graphOf (← j.getObjVal? "graph")
+  let ops ← (← getArr j "ops").toList.mapM gopOf
+  let res := graphSys.run g ops
+  -- for write operations also the document content (the same `writeDocV` the output text is rendered from)
+  let docs := ops.map fun op => match op with
+    | .write uri incl v _ _ => (match writeDocV g uri incl v with | .ok d => wdocToJson d | .error _ => Json.null)
+    | _ => Json.null
+  return Json.mkObj [("outputs", Json.arr (res.2.map goutJson).toArray), ("docs", Json.arr docs.toArray),
+    ("namespaces", Json.arr (res.1.namespaces.map fun u => Json.str (ofStr u)).toArray),
+    ("model_versions", Json.arr (res.1.models.map fun m => optStrToJson m.version).toArray),
+    ("counts", natsToJson [res.1.nodes.length, res.1.refs.length])]
+
+end HistIO
+
 def dispatch (j : Json) : Except String Json := do
   let op ← (← j.getObjVal? "op").getStr?
   match op with
@@ -677,6 +719,7 @@ def dispatch (j : Json) : Except String Json := do
   | "proto.history" => ProtoIO.opHistory j
   | "proto.many" => ProtoIO.opMany j
   | "proto.sched" => ProtoIO.opSched j
+  | "hist.run" => HistIO.opHist j
   | "ping" => return Json.mkObj [("pong", Json.bool true)]
   | _ => throw s!"unknown op {op}"
 
